@@ -617,7 +617,10 @@ func escapeTableShape(c *Check, r *Repo, g *pgrammar) {
 // escapeDecoders: R-escape-range — the builder's numeric decoders.
 func escapeDecoders(c *Check, r *Repo) {
 	// numeric escapes: evaluate the decoders
-	type probe struct{ method, text string; want rune }
+	type probe struct {
+		method, text string
+		want         rune
+	}
 	var probes []probe
 	for a := 0; a <= 3; a++ {
 		for b := 0; b <= 7; b++ {
